@@ -156,9 +156,11 @@ class Type3Tag(nfc.tag.Tag):
         # class that is returned by the Tag.ndef attribute.
 
         def _read_attribute_data(self):
+            self._read_attribute_error = None
             try:
                 data = self._tag.read_from_ndef_service(0)
-            except Type3TagCommandError:
+            except Type3TagCommandError as error:
+                self._read_attribute_error = error
                 return None
 
             if sum(data[0:14]) != unpack(">H", data[14:16])[0]:
@@ -235,6 +237,11 @@ class Type3Tag(nfc.tag.Tag):
 
         def _write_ndef_data(self, data):
             attributes = self._read_attribute_data()
+            if attributes is None:
+                log.debug("found no attribute data (maybe checksum error)")
+                if self._read_attribute_error:
+                    raise self._read_attribute_error
+                raise Type3TagCommandError(nfc.tag.RECEIVE_ERROR)
             attributes['writef'] = 0x0F
             self._write_attribute_data(attributes)
 
